@@ -53,7 +53,7 @@ Rec(op, c, n, lg, en) == [op |-> op, c |-> c, n |-> n, logged |-> lg, en |-> en]
 WriteBegin ==
   /\ pc = "idle" /\ Len(h) < MaxOps
   /\ \E c \in Chunks :
-       /\ Len(SelectSeq(consumed, LAMBDA x : x # "S")) + Len(c) <= MaxLen
+       /\ Len(SelectSeq(consumed, LAMBDA x : x \notin {"S", "D"})) + Len(c) <= MaxLen
        /\ IF ~enabled \/ Len(c) = 0
           THEN \* level pre-check fails (bytes dropped, n = len) or the loop body never runs
                /\ h' = Append(h, Rec("W", c, Len(c), logged, enabled))
@@ -90,7 +90,7 @@ SyncOrClose(cl) ==
   /\ pc = "idle"
   /\ logged' = IF Len(buff) > 0 THEN Log(logged, buff) ELSE logged
   /\ buff' = <<>>
-  /\ consumed' = Append(consumed, "S")
+  /\ consumed' = Append(consumed, IF enabled THEN "S" ELSE "D")   \* a flush while the level is disabled discards
   /\ pc' = IF cl THEN "closed" ELSE "idle"
   /\ UNCHANGED <<enabled, rem, curN, everOff, toggles>>
   /\ h' = Append(h, Rec(IF cl THEN "C" ELSE "S", <<>>, 0, logged', enabled))
@@ -112,11 +112,15 @@ Lines(s, cur, acc) ==
   IF Len(s) = 0 THEN <<acc, cur>>
   ELSE IF Head(s) = NL  THEN Lines(Tail(s), <<>>, Append(acc, cur))
   ELSE IF Head(s) = "S" THEN Lines(Tail(s), <<>>, IF Len(cur) > 0 THEN Append(acc, cur) ELSE acc)
+  ELSE IF Head(s) = "D" THEN Lines(Tail(s), <<>>, acc)
   ELSE Lines(Tail(s), Append(cur, Head(s)), acc)
 
 \* C17: between API calls the logged messages are exactly the complete lines so far and
 \* the buffer holds exactly the unterminated tail.
-LinesExact == (pc # "loop" /\ ~everOff) =>
+\* With level changes the stream is what was written while the level was enabled (bytes written while it is
+\* disabled are consumed and dropped, a flush while disabled discards the pending fragment): nothing is ever
+\* logged while disabled, and what is logged are exactly the lines of that stream.
+LinesExact == (pc # "loop") =>
                  LET r == Lines(consumed, <<>>, <<>>) IN logged = r[1] /\ buff = r[2]
 \* nothing is logged while the level is disabled
 QuietWhenDisabled == [][~enabled => logged' = logged]_vars
